@@ -164,7 +164,8 @@ where
                     // );
                     result.time_of_impact = new_range.curr_t;
 
-                    if new_range.min_t - prev_min_t < abs_tol {
+                    // NOTE: relative to the magnitude of the times, like in `bisect`.
+                    if new_range.min_t - prev_min_t < abs_tol * new_range.max_t.abs().max(1.0) {
                         if new_range.max_t == end_time {
                             // Check the configuration at max_t to see if the object are not disjoint.
                             // NOTE: could we do this earlier, before the above loop?
@@ -484,7 +485,10 @@ where
             break;
         }
 
-        if range.max_t - range.min_t < abs_tol {
+        // NOTE: this tolerance must be relative to the magnitude of the times. An absolute one
+        //       can never be reached once the times exceed 16.0 (consecutive floats are then
+        //       further apart than `abs_tol`) and the bisection would never terminate.
+        if range.max_t - range.min_t < abs_tol * range.max_t.abs().max(1.0) {
             range.curr_t = range.max_t;
             // println!("Bisection, break on tiny range.");
             break;
